@@ -21,6 +21,8 @@ package sem
 import (
 	"context"
 	"encoding/json"
+	"os"
+	"os/exec"
 	"reflect"
 	"runtime"
 	"sort"
@@ -43,6 +45,69 @@ type c17sOp struct {
 type c17sInput struct {
 	Cap0 uint32   `json:"cap0"`
 	Ops  []c17sOp `json:"ops"`
+	// Child: the history is executed sequentially (each operation settled by a pause) in a child process
+	// and only "did the process die, with which panic" is observed: histories on which the code under test
+	// may panic in one of its own goroutines (which no recover() in the harness can contain).
+	Child bool `json:"child,omitempty"`
+}
+
+// c17sChild runs in the child process (TestVerifC17SemChild).
+func c17sChild(in c17sInput) {
+	s := NewSem(in.Cap0)
+	for _, op := range in.Ops {
+		switch op.Op {
+		case "acq":
+			go s.Acquire()
+		case "set":
+			s.SetMaxCount(op.N)
+		}
+		// ("rel" is not executed here: releasing without a granted unit would be the harness' own panic)
+		time.Sleep(30 * time.Millisecond)
+	}
+	time.Sleep(100 * time.Millisecond)
+}
+
+func c17sExecChild(raw json.RawMessage) interface{} {
+	cmd := exec.Command(os.Args[0], "-test.run", "^TestVerifC17SemChild$", "-test.count=1")
+	cmd.Env = append(os.Environ(), "VERIF_C17_CHILD_IN="+string(raw))
+	done := make(chan struct{})
+	var out []byte
+	var err error
+	go func() { out, err = cmd.CombinedOutput(); close(done) }()
+	select {
+	case <-done:
+	case <-time.After(120 * time.Second):
+		if cmd.Process != nil {
+			cmd.Process.Kill()
+		}
+		<-done
+		return map[string]interface{}{"child": map[string]interface{}{"inconclusive": "timeout"}}
+	}
+	res := map[string]interface{}{"died": err != nil, "panic": ""}
+	text := string(out)
+	if i := strings.Index(text, "panic: "); i >= 0 {
+		msg := text[i+len("panic: "):]
+		if j := strings.IndexByte(msg, '\n'); j >= 0 {
+			msg = msg[:j]
+		}
+		res["panic"] = strings.TrimSpace(msg)
+	} else if err != nil && !strings.Contains(text, "CHILD-DONE") {
+		res["inconclusive"] = "child failed without a panic message"
+	}
+	return map[string]interface{}{"child": res}
+}
+
+func TestVerifC17SemChild(t *testing.T) {
+	raw := os.Getenv("VERIF_C17_CHILD_IN")
+	if raw == "" {
+		return
+	}
+	var in c17sInput
+	if err := json.Unmarshal([]byte(raw), &in); err != nil {
+		t.Fatalf("bad input")
+	}
+	c17sChild(in)
+	os.Stdout.WriteString("CHILD-DONE\n")
 }
 
 type c17sSnap struct {
@@ -133,6 +198,9 @@ func c17sExec(raw json.RawMessage) interface{} {
 	}
 	if in.Cap0 > 1000 {
 		in.Cap0 = 1000
+	}
+	if in.Child {
+		return c17sExecChild(raw)
 	}
 	s := NewSem(in.Cap0)
 	ctx, cancel := context.WithCancel(context.Background())
@@ -317,7 +385,25 @@ func c17sGenBig(r *verifh.Rand) interface{} {
 	return in
 }
 
+// c17sGenChild: capacity at / beyond maxCapacity, k units in use, a shrink below usage (parks), then a grow:
+// `Release(n - old)` with only `k` units held by the weighted semaphore. Executed in a child process.
+func c17sGenChild(r *verifh.Rand) interface{} {
+	in := c17sInput{Cap0: uint32(r.PickInt(1, 2, 3)), Child: true}
+	in.Ops = append(in.Ops, c17sOp{Op: "set", N: c17BigCaps[r.Intn(len(c17BigCaps))]})
+	k := r.Range(1, 4)
+	for j := 0; j < k; j++ {
+		in.Ops = append(in.Ops, c17sOp{Op: "acq"})
+	}
+	small := int64(r.Range(0, k)) // ≤ k: parks iff small < k
+	in.Ops = append(in.Ops, c17sOp{Op: "set", N: small})
+	in.Ops = append(in.Ops, c17sOp{Op: "set", N: small + int64(r.Range(1, 9))})
+	return in
+}
+
 func c17sGen(r *verifh.Rand, i int) interface{} {
+	if r.Intn(400) == 0 {
+		return c17sGenChild(r)
+	}
 	if r.Intn(15) == 0 {
 		return c17sGenBig(r)
 	}
